@@ -224,6 +224,7 @@ def run(ctx):
                     ctx.violation('torch %s (pad-then-crop) returns an all-zero frame %d for a stack of %d non-zero fields' % (name, i, kk),
                                   {'method': name, 'stack': kk, 'frame': i}, {'api': 'torch', 'method': name, 'what': 'energy', 'stack': True})
                     break
+    W.argument_types(ctx, 'C01', methods=('as', 'tf', 'bl'))          # the same calls with tuples / NumPy scalars / 0-d tensors: same field, hence same energy
     from .genkernels import check_generated_kernels; check_generated_kernels(ctx)   # kernels regenerated from the source vs implementation
 
 
